@@ -6,6 +6,7 @@ from vlib import strings as S
 from vlib import render as RR
 
 ID = "C07"
+PROBE_REQUIRED = True      # part of this property is decided on the generator itself, through harness/genprobe
 PROP_FILE = "Props/C07.v"
 RULE = ("(a) generator level, through genprobe (the real convert_case / snakify / CaseStyle::from_str of /repo's working tree): "
         "EVERY valid identifier over {a,b,A,B,1,_} up to length 6 (quick) / 8 (thorough) x the 11 styles + no style + snakify, "
